@@ -262,7 +262,7 @@ func (v *VerifFunction) VerifOrderIndependence(maxStates int) (viol []string, st
 		if len(s.wl) == 0 {
 			for _, b := range blocks {
 				rg, sg := ref[b], s.ends[b]
-				if (rg == nil) != (sg == nil) || (rg != nil && !rg.Matches(sg)) {
+				if (rg == nil) != (sg == nil) || (rg != nil && (!rg.Matches(sg) || VerifCanon(rg) != VerifCanon(sg))) {
 					viol = append(viol, fmt.Sprintf("%s: a worklist order ends with a different graph at the end of block %d than the tool's order", v.Name(), b.Index))
 					break
 				}
